@@ -13,6 +13,8 @@ os.makedirs(dest, exist_ok=True)
 for f in os.listdir(src):
     if os.path.isfile(os.path.join(src, f)):
         shutil.copy(os.path.join(src, f), dest)
+    elif os.path.isdir(os.path.join(src, f)) and not f.endswith("build"):
+        shutil.copytree(os.path.join(src, f), os.path.join(dest, f), dirs_exist_ok=True)
 meta = json.load(open(os.path.join(dest, "meta.json")))
 log = {}
 
